@@ -1,7 +1,9 @@
 """C19 — reverse post-order numbering (DESIGN.md section 6, C19).
 T: real Graph.compute_rpo / post_order on real Graph + Node objects vs the Lean model AgVerif.Rpo (num, po, rpo, yield order).
-S: oracle = the three conditions of the property, back edges computed by an independent iterative DFS,
-   plus the order-free consequence "an edge numbered backwards lies on a cycle"."""
+S: oracle = the three conditions of the property on the real outputs (entry = 1, permutation of 1..n, every edge
+   numbered backwards is a back edge).  "Back edge" is judged without assuming the successor order the code uses:
+   a backwards edge u -> v must have a forward-numbered path from v to u (true of every DFS, false of e.g. BFS orders).
+   `dfs_intervals` (an independent iterative DFS in all_sucs order) is only used by --replay to show the DFS tree."""
 import json
 import os
 
@@ -62,19 +64,6 @@ def dfs_intervals(G):
     return pre, post
 
 
-def reach_set(G, a, cache):
-    if a not in cache:
-        seen, todo = {a}, [a]
-        while todo:
-            u = todo.pop()
-            for v in graphgen.all_sucs(G, u):
-                if v not in seen:
-                    seen.add(v)
-                    todo.append(v)
-        cache[a] = seen
-    return cache[a]
-
-
 def oracle(G, reply, num, rpo):
     """judges rooted graphs only (the property's domain)"""
     n, entry = G[0], G[1]
@@ -89,16 +78,31 @@ def oracle(G, reply, num, rpo):
     if sorted(num) != list(range(1, n + 1)):
         out.append(dict(case=case, what="the numbers are not a permutation of 1..n", key=None,
                         expected="1..%d" % n, observed=num))
-    pre, post = dfs_intervals(G)
-    cache = {}
+    if out:
+        return out[:3]
+    # Back edges, judged without assuming which DFS the code ran (any successor order is a legitimate DFS):
+    # if u -> v is numbered backwards then v must be u or a DFS-tree ancestor of u, and tree paths are
+    # numbered strictly increasingly - so v must reach u along forward-numbered edges (hence u -> v closes a cycle).
+    fwd_cache = {}
+
+    def fwd_reach(a):
+        if a not in fwd_cache:
+            seen, todo = {a}, [a]
+            while todo:
+                x = todo.pop()
+                for y in graphgen.all_sucs(G, x):
+                    if num[x] < num[y] and y not in seen:
+                        seen.add(y)
+                        todo.append(y)
+            fwd_cache[a] = seen
+        return fwd_cache[a]
+
     for u in range(n):
         for v in graphgen.all_sucs(G, u):
-            back = pre[v] <= pre[u] and post[u] <= post[v]
-            if not back and not num[u] < num[v]:
-                out.append(dict(case=dict(case, edge=[u, v]), what="a non-back edge is numbered backwards", key=None,
-                                expected="num[%d] < num[%d]" % (u, v), observed=[num[u], num[v]]))
-            if not num[u] < num[v] and u not in reach_set(G, v, cache):
-                out.append(dict(case=dict(case, edge=[u, v]), what="an edge that lies on no cycle is numbered backwards",
+            if not num[u] < num[v] and u not in fwd_reach(v):
+                out.append(dict(case=dict(case, edge=[u, v]),
+                                what="an edge is numbered backwards although its target is not an ancestor of its source "
+                                     "(no forward-numbered path from the target back to the source)",
                                 key=None, expected="num[%d] < num[%d]" % (u, v), observed=[num[u], num[v]]))
     if sorted(rpo) != list(range(n)) or any(num[a] > num[b] for a, b in zip(rpo, rpo[1:])):
         out.append(dict(case=case, what="Graph.rpo is not the nodes sorted by num", key=None, expected="sorted", observed=rpo))
@@ -173,6 +177,10 @@ def replay(ck: Check, rp):
         reply, num, po, rpo = real_rpo(G)
         print("real :", reply)
         print("model:", canon_model(Driver(EXE).ask([CMD + " " + gs])[0]))
+        if num is not None and graphgen.is_rooted(G):
+            pre, post = dfs_intervals(G)
+            back = [[u, v] for u in range(G[0]) for v in graphgen.all_sucs(G, u) if pre[v] <= pre[u] and post[u] <= post[v]]
+            print("back edges of the DFS in all_sucs order:", back)
         for f in oracle(G, reply, num, rpo):
             print("oracle:", f["what"], "expected", f["expected"], "observed", f["observed"])
             return 1
